@@ -279,6 +279,23 @@ def check_tree_object(tt, tree):
     return fails
 
 
+def indep_leaf_paths(tree):
+    """{leaf: {level: ancestor}} computed from the raw dict of a valid tree
+    (independent of the code under test)"""
+    h = tree['hierarchy']
+    out = {leaf: {} for leaf in tree[h[-1]]}
+    cur = {leaf: leaf for leaf in tree[h[-1]]}
+    for i in range(len(h) - 2, -1, -1):
+        par = {}
+        for p, kids in tree[h[i]].items():
+            for c in kids:
+                par[c] = p
+        for leaf in out:
+            cur[leaf] = par[cur[leaf]]
+            out[leaf][h[i]] = cur[leaf]
+    return out
+
+
 def leaf_ancestors(tt):
     """{leaf: {level: ancestor}}"""
     out = {}
